@@ -200,7 +200,68 @@ theorem listing_pattern_exact (fs : Fs) (hwf : WF fs) (dir : Bytes) (d : CPath) 
   · rintro ⟨⟨e, h1, h2⟩, h3, h4⟩; exact ⟨e, h1, h2, h3, h4⟩
   · rintro ⟨e, h1, h2, h3, h4⟩; exact ⟨⟨e, h1, h2⟩, h3, h4⟩
 
+/-- Environment choice "an lseek fails" (the error returns of File::size / seek / readAll, File.cpp:180-189, are part of the
+    File script of `file_bytes_exact`: `FileOp.sizeF k`, `.readAllF k`, `.seekF`).  What they do, spelled out: a failing
+    File::seek answers -1 and moves nothing; File::size whose 1st or 2nd lseek fails answers -1 and moves nothing; when
+    the 3rd (restoring) lseek fails it answers -1 and the position STAYS at the end of the file; a later failure never fires. -/
+theorem size_with_failing_lseek (fs : Fs) (fd : Fd) (k : Nat) :
+    fileSizeF fs fd k =
+      if k ≤ 1 then (fd, none)
+      else if k = 2 ∧ fd.pos ≠ (fileData fs fd.path).length then ({ fd with pos := (fileData fs fd.path).length }, none)
+      else (fd, some (fileData fs fd.path).length) :=
+  fileSizeF_eq fs fd k
+
+/-- Environment choice "the lseek of File::open's append branch fails" (File.cpp:130-137): the world is what the same
+    open without the failure leaves (nothing is removed again — a file that O_CREAT made STAYS although open answers
+    false: the one way a failed open can leave a new, empty file); the failure fires exactly when that open would have
+    succeeded with appendFlag, and then the answer is "failed"; otherwise the answer is the usual one. -/
+theorem open_with_failing_append_seek (fs : Fs) (path : Bytes) (flags : Nat) :
+    (fileOpenF fs path flags).1 = (fileOpen fs path flags).1 ∧
+    ((fileOpenF fs path flags).2.2 = true →
+      (fileOpenF fs path flags).2.1 = none ∧ (fileOpen fs path flags).2.isSome = true ∧ hasFlag flags appendFlag = true) ∧
+    ((fileOpenF fs path flags).2.2 = false → (fileOpenF fs path flags).2.1.isSome = (fileOpen fs path flags).2.isSome) := by
+  unfold fileOpenF fileOpen
+  cases ho : sysOpen fs path (openFlags flags) with
+  | mk fs1 r =>
+    cases r with
+    | error _ => simp
+    | ok fd =>
+      simp only
+      by_cases hd : fd.isDir = true
+      · simp [hd]
+      · by_cases ha : hasFlag flags appendFlag = true
+        · have hl : sysLseek fs1 fd 0 .end_ = ({ fd with pos := (fileData fs1 fd.path).length }, .ok (fileData fs1 fd.path).length) :=
+            sysLseek_end0 fs1 fd
+          simp [hd, ha, hl]
+        · simp [hd, ha]
+
+/-- Directory::getCurrentDirectory terminates and answers the working directory whatever buffer size `getcwd` demands
+    (ERANGE loop, Directory.cpp:440-454): starting with any non-empty buffer, doubling it, `fuel` rounds suffice as soon as
+    start + fuel - 1 reaches the demanded size. -/
+theorem getcwd_loop_answers (text : Bytes) (need : Nat) : ∀ (fuel size : Nat), 1 ≤ size → 1 ≤ fuel →
+    text.length + 1 ≤ size + (fuel - 1) → need ≤ size + (fuel - 1) → getcwdLoop text need fuel size = some text := by
+  intro fuel
+  induction fuel with
+  | zero => intro _ _ h; omega
+  | succ fuel ih =>
+    intro size hs _ h1 h2
+    simp only [getcwdLoop, sysGetcwd]
+    by_cases hfit : text.length + 1 ≤ size ∧ need ≤ size
+    · simp [hfit]
+    · simp only [hfit, if_false]
+      have hf : 1 ≤ fuel := by
+        by_cases h0 : fuel = 0
+        · subst h0; simp at h1 h2; exact absurd ⟨h1, h2⟩ hfit
+        · omega
+      exact ih (size * 2) (by omega) hf (by omega) (by omega)
+
+/-- File::isExecutable in the closed world of the library (directories 0755, files 0644, no chmod): it answers what
+    Directory::exists answers. -/
+theorem isExecutable_closed_world (fs : Fs) (path : Bytes) : fileIsExecutable fs path = dirExists fs path := rfl
+
 /-! non-vacuity -/
+example : getcwdLoop [47, 115] 70000 64 4096 = some [47, 115] := by decide
+example : (fileOpenF ⟨[([[115]], .dir)]⟩ [104] 6).2.2 = true ∧ (fileOpenF ⟨[([[115]], .dir)]⟩ [104] 6).1.get [[115], [104]] = some (.file []) := by decide
 example : dirListPat exWorld [97] [] true (fun _ => true) = some [([98], true), ([108], true)] := by decide
 example : (dirUnlinkTopU (fun _ => true) exWorld [97] true).2 = true := by decide
 example : (dirUnlinkTopU (fun _ => true) exWorld [97] true).1.get [[111], [111, 100], [120]] = some (.file [88]) := by decide
